@@ -880,6 +880,14 @@ def synthetic_specs(v):
         items.append((red, ["data"], {"data": T(F, 3, 2, 2)}, {"keepdims": 0}, {}))
         items.append((red, ["data", "axes"], {"data": T(F, 3, 2, 2), "axes": T(I64, 1)}, {"keepdims": 1},
                       {"axes": np.array([-1], dtype=np.int64)}))
+    # ALL operands constant, for operators whose reference implementation returns another element type than ONNX infers (the value is
+    # dropped with a warning - the constructor neither raises nor changes the types)
+    F16 = TensorProto.FLOAT16
+    items.append(("ReduceSumSquare", ["data"], {"data": T(I32, 1, 2)}, {"keepdims": 1}, {"data": np.array([[1, 2]], dtype=np.int32)}))
+    items.append(("LayerNormalization", ["X", "Scale"], {"X": T(F16, 2, 3), "Scale": T(F16, 3)}, {},
+                  {"X": np.arange(6, dtype=np.float16).reshape(2, 3), "Scale": np.ones(3, dtype=np.float16)}, ["Y", "Mean", "InvStdDev"]))
+    items.append(("LayerNormalization", ["X", "Scale"], {"X": T(D, 2, 3), "Scale": T(D, 3)}, {},
+                  {"X": np.arange(6, dtype=np.float64).reshape(2, 3), "Scale": np.ones(3, dtype=np.float64)}, ["Y", "Mean", "InvStdDev"]))
     out = []
     m = module(v)
     for idx, item in enumerate(items):
